@@ -16,7 +16,7 @@ class V:
         self.t = t
 
     def __repr__(self):
-        return "V(%s,%s)" % (self.ty, self.t)
+        return "V(%s)" % (self.ty,)        # never pretty-print the z3 term here: repr is used in (caught) exception messages
 
 
 class PyTup:
